@@ -123,7 +123,7 @@ async fn run_case(c: Case) -> Vec<(String, String)> {
         peer.send(PSH, 7, b"early-bytes");
     }
     // observe the server's frames for the stream
-    let v2 = c.version.and_then(|v| v.parse::<u8>().ok()).map(|v| v >= 2).unwrap_or(false);
+    let v2 = c.version.and_then(|v| v.trim().parse::<u32>().ok()).map(|v| v >= 2).unwrap_or(false);
     let wait_ms = if c.blackhole { 17_000 } else { 3_000 };
     let mut synacks: Vec<Vec<u8>> = vec![];
     let mut psh_before_synack = false;
@@ -336,6 +336,10 @@ pub fn server_half(rep: &mut Report, tier: Tier) {
     }
     for version in [Some("2"), Some("1")] {
         cases.push(Case { version, accepting: false, domain: true, early_data: false, blackhole: false, unresolvable: true });
+    }
+    // other spellings of a version >= 2 (and of versions below 2): the verdict is due exactly for the former
+    for version in [Some("10"), Some("02"), Some("255"), Some(" 2"), Some("2 "), Some("9"), Some("0"), Some("01"), Some("")] {
+        cases.push(Case { version, accepting: true, domain: false, early_data: false, blackhole: false, unresolvable: false });
     }
     // a target whose connect stays pending for the handler's full 15 s (runs concurrently with the other cases)
     cases.push(Case { version: Some("2"), accepting: true, domain: false, early_data: false, blackhole: true, unresolvable: false });
